@@ -434,6 +434,39 @@ func r09_5(c *RC) {
 					}
 				}
 			}
+			// or a descending index: j starts at len(nonce)-1, steps by -1,
+			// runs while j >= 0, and the element is nonce[j]
+			if phi, ok := ia.Index.(*ssa.Phi); ok {
+				initOK, stepOK := false, false
+				for _, e := range phi.Edges {
+					if bo, ok := e.(*ssa.BinOp); ok {
+						k, isK := constInt(bo.Y)
+						switch {
+						case bo.Op == token.SUB && isK && k == 1 && bo.X == ssa.Value(phi):
+							stepOK = true
+						case bo.Op == token.ADD && isK && k == -1 && bo.X == ssa.Value(phi):
+							stepOK = true
+						case bo.Op == token.SUB && isK && k == 1:
+							if cl, ok := bo.X.(*ssa.Call); ok && calleeNameAny(cl) == "len" {
+								if f := fieldOrigin(cl.Common().Args[0]); f != nil && f.Name() == "implicitNonce" {
+									initOK = true
+								}
+							}
+						}
+					}
+				}
+				boundOK := false
+				for _, r := range *phi.Referrers() {
+					if bo, ok := r.(*ssa.BinOp); ok && bo.X == ssa.Value(phi) {
+						if k, isK := constInt(bo.Y); isK && ((bo.Op == token.GEQ && k == 0) || (bo.Op == token.GTR && k == -1)) {
+							boundOK = true
+						}
+					}
+				}
+				if initOK && stepOK && boundOK {
+					idxOK, fullRange = true, true
+				}
+			}
 			if bo, ok := x.Val.(*ssa.BinOp); ok && bo.Op == token.ADD {
 				if k, ok := constInt(bo.Y); ok && k == 1 {
 					incOK = true
@@ -452,7 +485,7 @@ func r09_5(c *RC) {
 		}
 	})
 	if !idxOK {
-		problems = append(problems, "the element incremented is not nonce[len-1-i]")
+		problems = append(problems, "the element incremented is not nonce[len-1-i] (ascending i) nor nonce[j] with j descending from len-1")
 	}
 	if !incOK {
 		problems = append(problems, "the element is not incremented by 1")
